@@ -185,6 +185,22 @@ def grid_case(ctx, idx, rng):
             kd2 = 10**9
         check_eigh(ctx, A, v, m, kd2)
         check_expm(ctx, A, v, dt, m, kd2, hermitian=True)
+    if idx % 6 == 1 and n >= 2:
+        # strongly DECAYING (or growing) real part of the step on a semi-definite spectrum: exp(dt A) v is perfectly finite (all factors in (0, 1]), but
+        # |Re dt| x spectral spread is 720 .. 1500 -- factoring out the wrong end of the spectrum overflows
+        w_, Q_ = np.linalg.eigh((A + A.conj().T) / 2)
+        spread = max(float(w_[-1] - w_[0]), 1e-300)
+        sgn = float(rng.choice([-1, 1]))
+        Apsd = (A - (w_[0] if sgn < 0 else w_[-1]) * np.identity(n)) / spread * float(rng.uniform(20, 120))          # spectrum in [0, W] (decay) or [-W, 0] (growth direction reversed)
+        Wd = float(np.linalg.norm(Apsd, 2))
+        dts = sgn * float(rng.uniform(720, 1500)) / max(Wd, 1e-300) + (1j * float(rng.uniform(-2, 2)) / max(Wd, 1e-300) if idx % 12 == 1 else 0)
+        res_s = kr.krylov_residuals(Apsd, v, m + 1)
+        kd_s = kr.krylov_dim(res_s)
+        if any(1e-8 <= r <= 1e-5 for r in res_s[:m]):
+            kd_s = 10**9
+        ctx.case(('hermitian', 'semi-definite-long-real-step', 'decaying' if sgn < 0 else 'decaying-negative-spectrum', 'm>n' if m > n else ('m=n' if m == n else 'm<n'),
+                  'exhausted' if m >= kd_s else 'not-exhausted', 'complex' if cplx else 'real'), sample={'n': n, 'm': m, 'A': Apsd, 'v': v, 'dt': dts})
+        check_expm(ctx, Apsd, v, dts, m, kd_s, hermitian=True)
     # non-normal matrix for the general branch: generic, or defective / highly non-normal (Jordan blocks, ladder operators), where an
     # eigen-decomposition of the projected matrix is ill-conditioned or impossible
     gk = ('generic', 'jordan', 'ladder', 'triangular-degenerate')[(idx // 5) % 4]
